@@ -32,15 +32,26 @@ BackAt(g, j) ==
                              index |-> [src |-> "none", v |-> ""], path |-> [src |-> "none", v |-> ""]]]
        IN  [i |-> 0, op |-> "cli", fam |-> "parse_back", sid |-> "pb" \o ToString(t),
             in |-> [cmd |-> cmd, argv |-> <<"address">>, env |-> [MNEMONIC |-> ref], timeout_ms |-> 60000]]
+\* every kind of failure the source may report, persistent from request k on: plain generation, inline and threaded search
+ErrnosCli == <<5, 4, 11, 38, 14, 1, 22, 12, 0>>
+NErrno == Len(ErrnosCli) * 3
+ErrnoAt(j) ==
+  LET e == ErrnosCli[1 + ((j - 1) % Len(ErrnosCli))]
+      m == (j - 1) \div Len(ErrnosCli)
+      c == IF m = 0 THEN New("12", "", "", "", "", "") ELSE New("", "0x5b", "", "", "", IF m = 1 THEN "0" ELSE "2")
+      it == NItem("fault_errno", c, <<>>, IF m = 0 THEN 0 ELSE 1)
+  IN  [it EXCEPT !.in.shim = @ @@ [errno |-> e]]
 O1 == 82
 O2 == O1 + NFaults
 O3 == O2 + NFresh
-Count == O3 + 2 * NBack
+O4 == O3 + 2 * NBack
+Count == O4 + NErrno
 ItemAt(g) ==
   IF g <= O1 THEN LenAt(g)
   ELSE IF g <= O2 THEN FaultAt(g - O1)
   ELSE IF g <= O3 THEN FreshAt(g - O2)
-  ELSE BackAt(g, g - O3)
+  ELSE IF g <= O4 THEN BackAt(g, g - O3)
+  ELSE ErrnoAt(g - O4)
 VARIABLE n
 INSTANCE GenBase
 =============================================================================
